@@ -20,8 +20,8 @@ var poolTexts = []string{
 	`0`, `1`, `-1`, `1.5`, `0.5`, `0.1`, `255`, `256`,
 	`9007199254740992`, `9007199254740993`, `9223372036854775807`, `9223372036854775808`, `18446744073709551615`, `-9223372036854775808`,
 	`""`, `"a"`, `"1"`, `"true"`, `"null"`, "\"é\"", "\"é\"",
-	`[]`, `[1]`, `[2]`, `[1,2]`, `[2,1]`, `[1,"a"]`, `[[1]]`, `[[]]`, `[null]`, `[1,1]`, `["1"]`, `[true]`, `[{}]`, `[9007199254740992]`, `[9007199254740993]`,
-	`{}`, `{"a":1}`, `{"a":2}`, `{"b":1}`, `{"a":1,"b":2}`, `{"a":1,"b":3}`, `{"a":[1]}`, `{"a":null}`, "{\"é\":1}", "{\"é\":1}", `{"a":"1"}`, `{"a":{}}`, `{"a":1.5}`,
+	`[]`, `[1]`, `[2]`, `[1,2]`, `[2,1]`, `[1,"a"]`, `[[1]]`, `[[2]]`, `[[1,2]]`, `[[]]`, `[null]`, `[1,1]`, `["1"]`, `[true]`, `[{}]`, `[9007199254740992]`, `[9007199254740993]`,
+	`{}`, `{"a":1}`, `{"a":2}`, `{"b":1}`, `{"a":1,"b":2}`, `{"a":1,"b":3}`, `{"a":[1]}`, `{"a":null}`, "{\"é\":1}", "{\"é\":1}", `{"a":"1"}`, `{"a":{}}`, `{"a":1.5}`, `{"a":{"b":1}}`, `{"a":{"b":2}}`, `{"a":[1,{"b":null}]}`, `{"a":[1,{"b":0}]}`,
 }
 
 // Item is one represented value.
